@@ -351,6 +351,24 @@ def handleIO (op : String) (args : List String) (impl : Option (List String)) : 
         | ["HANG"] => false
         | _ => true
       return (out, pv)
+  | "ZCKOPS", [path, split, manual] =>
+    -- the calls the zck tool makes for this input (read in 32 KiB blocks) and the resulting chunk sizes
+    let f ← readFile path
+    match parseHex split with
+    | some sp =>
+      let rec blocks (bs : Bytes) (fuel : Nat) : List Bytes :=
+        match fuel with
+        | 0 => []
+        | fuel + 1 => if bs.isEmpty then [] else bs.take 32768 :: blocks (bs.drop 32768) fuel
+      let ops := Tools.zckOps sp (blocks f (f.length / 32768 + 2))
+      let wcfg : Writer.Cfg := { manual := manual == "1", chunkMin := 0, chunkMax := 0 }
+      let out := match Writer.closeChunks wcfg ops with
+        | none => "HANG"
+        | some chunks => s!"OK lens={",".intercalate ((0 :: chunks.map (·.length)).map toString)}"
+      -- property (tool level): nothing the scanner passes on is lost: the written bytes are the input
+      let pv := impl.map fun _ => decide (Writer.written ops = f)
+      return (out, pv)
+    | none => return ("BADOP", none)
   | "META", [path] =>
     let f ← readFile path
     let m := Header.openFile Sha.zckHash f
